@@ -1,0 +1,29 @@
+//go:build verif
+
+// Contracts for package act, read by the verifier in /verif (govc). Comment-only: this file
+// declares nothing and is compiled only with -tags verif.
+package act
+
+//@ spec func sortedI64(s []int64) bool = forall i, j int :: 0 <= i && i < j && j < len(s) ==> s[i] <= s[j]
+
+// C09: the restart window. restarts are wall-clock milliseconds of earlier restarts, oldest first.
+// With A = old(restarts) ++ [now] (n0+1 entries, sorted), "more than intensity entries of A lie
+// within the last period" is equivalent to "the (intensity+1)-th most recent entry lies within it".
+
+//@ func supCheckRestartIntensity
+//@   props C09
+//@   mode int
+//@   requires [sorted] sortedI64(restarts)
+//@   requires [past] forall i int :: 0 <= i && i < len(restarts) ==> 0 <= restarts[i] && restarts[i] <= wallclock()
+//@   requires [clock] wallclock() >= 0
+//@   requires [period] 0 <= period && period <= 9223372036854775
+//@   requires [intensity] 0 <= intensity
+//@   loop 1 invariant [suffix] len(restarts) <= len(pre(restarts)) && restarts == pre(restarts)[len(pre(restarts)) - len(restarts):]
+//@   loop 1 invariant [dropped] forall i int :: 0 <= i && i < len(pre(restarts)) - len(restarts) ==> now - pre(restarts)[i] > periodMillis
+//@   ensures [shape] len(result.0) >= 1 && len(result.0) <= len(restarts) + 1
+//@   ensures [now_last] result.0[len(result.0) - 1] == wallclock() && wallclock() >= old(wallclock())
+//@   ensures [kept] forall k int :: 0 <= k && k < len(result.0) - 1 ==> result.0[k] == old(restarts[len(restarts) + 1 - len(result.0) + k])
+//@   ensures [forgotten_only_if_old] forall i int :: 0 <= i && i < len(restarts) + 1 - len(result.0) ==> wallclock() - old(restarts[i]) > int64(period) * 1000
+//@   ensures [exceeded_iff] result.1 <==> (len(restarts) + 1 > intensity && (intensity == 0 || wallclock() - old(restarts[len(restarts) - intensity]) <= int64(period) * 1000))
+//@   ensures [stays_sorted] sortedI64(result.0)
+//@   ensures [stays_past] forall i int :: 0 <= i && i < len(result.0) ==> 0 <= result.0[i] && result.0[i] <= wallclock()
